@@ -138,6 +138,9 @@ STALE_RESERVED = {"_DELIM": [",", " ", "\t"], "_delim": [","], "_SIZE": [12345],
                   "_SHAPE": [(3,)], "_HAS_FIELDS": [True], "_DTYPE": [[("zz", "<i4"), ("yy", "|S3")]], "_VERSION": ["0.9"]}
 
 
+LOOKALIKE = ["delim", "Delim", "DELIM", "DTYPE", "Dtype", "dtype", "size", "Size", "SIZE", "nrows", "shape", "version", "VERSION", "has_fields"]
+
+
 def rand_header(rng):
     m = int(rng.integers(0, 4))
     if m == 0:
@@ -145,6 +148,10 @@ def rand_header(rng):
     n = int(rng.integers(0 if m == 1 else 1, 6))
     keys = [HDR_KEYS[i] for i in rng.permutation(len(HDR_KEYS))[:n]]
     h = {k: (rand_value(rng) if m == 3 else rand_value(rng, depth=2)) for k in keys}
+    if rng.random() < .25:
+        # user keys that look like the bookkeeping keys but are not (no leading underscore): they are ordinary user keys
+        for k in [LOOKALIKE[int(i)] for i in rng.permutation(len(LOOKALIKE))[: int(rng.integers(1, 3))]]:
+            h[k] = [",", "\t", " ", "[('a', '<i4')]", 7, "1.0"][int(rng.integers(0, 6))]
     if rng.random() < .25:
         sk = list(STALE_RESERVED)
         for i in rng.permutation(len(sk))[: int(rng.integers(1, 4))]:
